@@ -37,6 +37,10 @@ SHRINK_BUDGET = {'quick': 60, 'thorough': 240}
 
 
 def _on_alarm(signum, frame):
+    # re-arm first: an exception raised while a gc callback is running is swallowed by CPython
+    # ("Exception ignored in ..."), so keep firing until the case is actually abandoned
+    import signal
+    signal.setitimer(signal.ITIMER_REAL, 2)
     raise CaseTimeout()
 
 
@@ -84,6 +88,8 @@ def worker(args):
             import faulthandler
             import signal
             faulthandler.register(signal.SIGUSR1, all_threads=True)
+            faulthandler.dump_traceback_later(150, repeat=True,
+                                              file=open('/tmp/hang-%d.txt' % os.getpid(), 'w'))
         import signal
         import threading
         signal.signal(signal.SIGALRM, _on_alarm)
@@ -158,13 +164,18 @@ def worker(args):
                 res['labels']['shrinking stopped at its wall-clock budget'] = 1
             res['fail'] = {'case': jsonable(last['case']),
                            'violations': jsonable(last['violations'])}
-        except Exception:
+        except (Exception, MemoryError):
             # a crash inside Hypothesis' shrinker must not hide a failure that was already found
             if 'case' not in last:
                 raise
             res['labels']['shrinker crashed; unshrunk failure reported'] = 1
+            if os.environ.get('VERIF_DEBUG'):
+                sys.stderr.write('SHRINK-CRASH in worker %d:\n%s\n' % (widx, traceback.format_exc()))
             res['fail'] = {'case': jsonable(last['case']),
                            'violations': jsonable(last['violations'])}
+        from vf import probes as _pr
+        if _pr.RUNAWAYS:
+            res['labels']['runaway macro steps (probe log limit hit)'] = len(_pr.RUNAWAYS)
         if hasattr(mod, 'extra'):
             ex = mod.extra(tier, seed, widx)
             if ex:
@@ -174,6 +185,69 @@ def worker(args):
     res['keys'] = list(res['keys'])
     res['wall'] = time.time() - t0
     return res
+
+
+def _worker_main(job, conn):
+    try:
+        import resource
+        lim = int(os.environ.get('VERIF_MEM_GB', '8')) << 30
+        resource.setrlimit(resource.RLIMIT_AS, (lim, lim))
+    except Exception:
+        pass
+    res = worker(job)
+    try:
+        conn.send(res)
+    finally:
+        conn.close()
+
+
+def _lost(job, why):
+    return {'evaluations': 0, 'labels': {why: 1}, 'keys': [], 'samples': [], 'fail': None,
+            'error': None, 'known': {}, 'nontrivial_cases': 0, 'inconclusive': True,
+            'excluded_known': 0, 'widx': job[4], 'wall': 0, 'lost': True}
+
+
+def run_workers(jobs, deadline_s):
+    """one process per shard; a shard that dies or overruns the deadline is inconclusive"""
+    ctx = multiprocessing.get_context('fork')
+    pending = []
+    for job in jobs:
+        rd, wr = ctx.Pipe(duplex=False)
+        p = ctx.Process(target=_worker_main, args=(job, wr))
+        p.daemon = False
+        p.start()
+        wr.close()
+        pending.append((p, rd, job))
+    results = []
+    deadline = time.time() + deadline_s
+    while pending:
+        progressed = False
+        for item in list(pending):
+            p, rd, job = item
+            if rd.poll(0):
+                try:
+                    results.append(rd.recv())
+                except (EOFError, OSError):
+                    results.append(_lost(job, 'worker died without a result (inconclusive shard)'))
+                p.join(10)
+                pending.remove(item)
+                progressed = True
+            elif not p.is_alive():
+                results.append(_lost(job, 'worker died without a result (inconclusive shard)'))
+                pending.remove(item)
+                progressed = True
+        if pending and time.time() > deadline:
+            for p, rd, job in pending:
+                p.terminate()
+                p.join(5)
+                if p.is_alive():
+                    p.kill()
+                results.append(_lost(job, 'worker exceeded the wall-clock deadline '
+                                          '(inconclusive shard)'))
+            pending = []
+        if not progressed:
+            time.sleep(0.05)
+    return results
 
 
 def merge_extra(res, ex):
@@ -247,10 +321,7 @@ def run_check(pid, tier, seed, workers, examples):
     if workers == 1:
         results = [worker(jobs[0])]
     else:
-        ctx = multiprocessing.get_context('fork')
-        with ctx.Pool(workers) as pool:
-            # watchdog: a worker that does not come back is a harness problem, not a verdict
-            results = pool.map_async(worker, jobs, chunksize=1).get(timeout=cap * 2 + 600)
+        results = run_workers(jobs, cap * 1.5 + 420)
     merged = {'evaluations': 0, 'labels': {}, 'keys': set(), 'samples': [], 'known': {},
               'nontrivial_cases': 0, 'excluded_known': 0, 'workers': workers,
               'inconclusive': False}
@@ -276,6 +347,9 @@ def run_check(pid, tier, seed, workers, examples):
     for f in rep['known']:
         merged['known'][f] = merged['known'].get(f, 0) + 1
     fails.extend(rep['fails'])
+    if results and all(r.get('lost') for r in results):
+        print('HARNESS-ERROR property=%s: every worker was lost' % pid)
+        return 2
     if errors:
         sys.stderr.write(errors[0])
         print('HARNESS-ERROR property=%s (%d worker(s))' % (pid, len(errors)))
